@@ -189,3 +189,65 @@ func AtomicCompareAndSwapInt32(p *int32, o, n int32) bool {
 	atomicPoint("atomic.CAS", p, true)
 	return atomic.CompareAndSwapInt32(p, o, n)
 }
+
+// ---- the remaining sync/atomic function family ----
+
+func AtomicSwapInt64(p *int64, v int64) int64 {
+	atomicPoint("atomic.Swap", p, true)
+	return atomic.SwapInt64(p, v)
+}
+
+func AtomicSwapInt32(p *int32, v int32) int32 {
+	atomicPoint("atomic.Swap", p, true)
+	return atomic.SwapInt32(p, v)
+}
+
+func AtomicLoadUint64(p *uint64) uint64 {
+	atomicPoint("atomic.Load", p, false)
+	return atomic.LoadUint64(p)
+}
+
+func AtomicStoreUint64(p *uint64, v uint64) {
+	atomicPoint("atomic.Store", p, true)
+	atomic.StoreUint64(p, v)
+}
+
+func AtomicAddUint64(p *uint64, d uint64) uint64 {
+	atomicPoint("atomic.Add", p, true)
+	return atomic.AddUint64(p, d)
+}
+
+func AtomicSwapUint64(p *uint64, v uint64) uint64 {
+	atomicPoint("atomic.Swap", p, true)
+	return atomic.SwapUint64(p, v)
+}
+
+func AtomicCompareAndSwapUint64(p *uint64, o, n uint64) bool {
+	atomicPoint("atomic.CAS", p, true)
+	return atomic.CompareAndSwapUint64(p, o, n)
+}
+
+func AtomicLoadUint32(p *uint32) uint32 {
+	atomicPoint("atomic.Load", p, false)
+	return atomic.LoadUint32(p)
+}
+
+func AtomicStoreUint32(p *uint32, v uint32) {
+	atomicPoint("atomic.Store", p, true)
+	atomic.StoreUint32(p, v)
+}
+
+func AtomicAddUint32(p *uint32, d uint32) uint32 {
+	atomicPoint("atomic.Add", p, true)
+	return atomic.AddUint32(p, d)
+}
+
+func AtomicSwapUint32(p *uint32, v uint32) uint32 {
+	atomicPoint("atomic.Swap", p, true)
+	return atomic.SwapUint32(p, v)
+}
+
+func AtomicCompareAndSwapUint32(p *uint32, o, n uint32) bool {
+	atomicPoint("atomic.CAS", p, true)
+	return atomic.CompareAndSwapUint32(p, o, n)
+}
